@@ -28,6 +28,16 @@ Definition k_original_id := s_ "original_id".
 Definition k_implementation := s_ "implementation".
 Definition k_interface_classes := s_ "interface_classes".
 Definition k_features := s_ "features".
+Definition k_minchars := s_ "minchars".
+Definition k_maxchars := s_ "maxchars".
+Definition k_isutf8 := s_ "isUTF8".
+Definition k_minbytes := s_ "minbytes".
+Definition k_maxbytes := s_ "maxbytes".
+Definition k_minlen := s_ "minlen".
+Definition k_maxlen := s_ "maxlen".
+Definition c_string := s_ "StringType".
+Definition c_blob := s_ "BLOBType".
+Definition c_array := s_ "ArrayOf".
 
 Definition conv (d : dtype) (v : pyval) : res pyval := dt_call d v.           (* datatype(value) *)
 Definition valid (d : dtype) (v : pyval) : res pyval := dt_validate d v PNone. (* datatype.validate(value) *)
@@ -194,8 +204,19 @@ Definition unl_float (v : pyval) : res pyval := float_validate (fopp fmaxval) fm
 Definition unl_int (v : pyval) : res pyval := int_validate (- unlimited) unlimited v.
 Definition unit_validate (v : pyval) : res pyval := string_call 0 unlimited true v.
 
+(* the length properties of StringType / BLOBType / ArrayOf: `Property(..., IntRange(lo, hi), ...)`, bounds from the
+   translator table dt_length_props (class, property, lo, hi); HasProperties.setProperty validates with them *)
+Definition len_validate (cls k : str) (v : pyval) : res pyval :=
+  match find (fun r => str_eqb cls (fst (fst (fst r))) && str_eqb k (snd (fst (fst r)))) dt_length_props with
+  | Some (_, _, lo, hi) => int_validate lo hi v
+  | None => Err EOther
+  end.
+Definition set_len (cls k : str) (v : pyval) : option Z :=
+  match len_validate cls k v with Ok (PInt z) => Some z | _ => None end.
+
 (* datatype.setProperty(key, value) for the modelled leaves; None = KeyError / BadValueError, which Parameter.setProperty
-   turns into ProgrammingError *)
+   turns into ProgrammingError.  min/max/unit of the numeric types do not influence the conversion datatype(value);
+   minchars/maxchars/isUTF8 of a string and minbytes/maxbytes of a blob DO: they decide which values are legal *)
 Definition leaf_setprop (d : dtype) (u : str) (k : str) (v : pyval) : option (dtype * str) :=
   match d with
   | TFloat mn mx a r =>
@@ -212,14 +233,26 @@ Definition leaf_setprop (d : dtype) (u : str) (k : str) (v : pyval) : option (dt
       else if str_eqb k k_max then match unl_float v with Ok (PFloat f) => Some (TScaled sc mn f, u) | _ => None end
       else if str_eqb k k_unit then match unit_validate v with Ok (PStr s) => Some (d, s) | _ => None end
       else None
+  | TString a b u8 =>
+      if str_eqb k k_minchars then match set_len c_string k v with Some z => Some (TString z b u8, u) | None => None end
+      else if str_eqb k k_maxchars then match set_len c_string k v with Some z => Some (TString a z u8, u) | None => None end
+      else if str_eqb k k_isutf8 then match bool_call v with Ok (PBool x) => Some (TString a b x, u) | _ => None end
+      else None
+  | TBlob a b =>
+      if str_eqb k k_minbytes then match set_len c_blob k v with Some z => Some (TBlob z b, u) | None => None end
+      else if str_eqb k k_maxbytes then match set_len c_blob k v with Some z => Some (TBlob a z, u) | None => None end
+      else None
   | _ => None
   end.
 
-(* ArrayOf forwards unknown keys to its members (one level modelled) *)
-Definition dt_setprop (d : dtype) (u : str) (k : str) (v : pyval) : option (dtype * str) :=
+(* ArrayOf.setProperty: its own properties minlen / maxlen, every other key is forwarded to the element type
+   (through nested arrays) *)
+Fixpoint dt_setprop (d : dtype) (u : str) (k : str) (v : pyval) {struct d} : option (dtype * str) :=
   match d with
   | TArray elem a b =>
-      match leaf_setprop elem u k v with Some (e', u') => Some (TArray e' a b, u') | None => None end
+      if str_eqb k k_minlen then match set_len c_array k v with Some z => Some (TArray elem z b, u) | None => None end
+      else if str_eqb k k_maxlen then match set_len c_array k v with Some z => Some (TArray elem a z, u) | None => None end
+      else match dt_setprop elem u k v with Some (e', u') => Some (TArray e' a b, u') | None => None end
   | _ => leaf_setprop d u k v
   end.
 
@@ -435,11 +468,13 @@ Definition leaf_inverted (d : dtype) : bool :=
   | TFloat mn mx _ _ => flt mx mn
   | TInt mn mx => (mx <? mn)%Z
   | TScaled _ mn mx => flt mx mn
+  | TString a b _ => (b <? a)%Z                       (* minchars > maxchars *)
+  | TBlob a b => (b <? a)%Z                           (* minbytes > maxbytes *)
   | _ => false
   end.
-(* ArrayOf.checkProperties also checks its element type *)
-Definition dt_inverted (d : dtype) : bool :=
-  match d with TArray e _ _ => leaf_inverted e | _ => leaf_inverted d end.
+(* ArrayOf.checkProperties: minlen > maxlen, then the element type *)
+Fixpoint dt_inverted (d : dtype) : bool :=
+  match d with TArray e a b => (b <? a)%Z || dt_inverted e | _ => leaf_inverted d end.
 Definition check_param (p : param) : list err :=
   match p_descr p with
   | None => [ErrCheck (p_name p)]
@@ -599,6 +634,11 @@ Definition valid_modname (n : str) : bool :=
   | c :: r => is_alpha c && forallb is_word r && Nat.leb (List.length r) modname_regex
   end.
 
+(* config.Param.__init__ (value, keyword overrides kwds): `if value is not Undef: kwds['value'] = value`, then the dict
+   is built from kwds - an ORDERED dict: the keyword
+   overrides in the order they are written, `value` LAST (`value` cannot be among kwds: it is the positional parameter).
+   Module._add_accessible walks the items in this order, so the value is checked by the datatype with all the
+   overrides of the same Param applied *)
 Definition param_dict (v : option pyval) (kw : entry) : entry :=
   match v with Some x => dict_set k_value x kw | None => kw end.
 
